@@ -211,7 +211,7 @@ func checkMain(args []string) {
 		if r.VC != nil {
 			for cn := range r.VC.usedCon {
 				cc := prog.contracts.Funcs[cn]
-				if cc != nil && cc.Kind == "func" && !cc.Trusted && len(cc.Props) == 0 && !done[cn] && !(cc.Inline && len(cc.Ensures) == 0) {
+				if cc != nil && cc.Kind == "func" && !cc.Trusted && len(cc.Props) == 0 && !onlyTaggedClaims(cc) && !done[cn] && !(cc.Inline && len(cc.Ensures) == 0) {
 					queue = append(queue, cn)
 				}
 			}
@@ -842,4 +842,22 @@ func (ev *Evidence) finish(verif string, start time.Time, violations int, note s
 	os.MkdirAll(out, 0o755)
 	b, _ := json.MarshalIndent(ev, "", " ")
 	os.WriteFile(filepath.Join(out, ev.PropertyID+".json"), b, 0o644)
+}
+
+// onlyTaggedClaims: a contract that belongs to no property of its own (no `property` line), is verified for the properties
+// of its `alsofor` line, and tells its callers nothing but clauses tagged with those properties: no untagged ensures, no
+// frame (modifies all, or none), no purity. Nothing of it is left to verify in a run for another property.
+func onlyTaggedClaims(c *FuncContract) bool {
+	if len(c.AlsoFor) == 0 || c.Pure || c.NoPanic || len(c.Updates) > 0 {
+		return false
+	}
+	for _, e := range c.Ensures {
+		if len(e.Props) == 0 {
+			return false
+		}
+	}
+	if c.HasMod && !(len(c.Modifies) == 1 && c.Modifies[0] == "all") {
+		return false
+	}
+	return true
 }
